@@ -5,6 +5,7 @@ import (
 	"fmt"
 	"math/rand"
 	"strconv"
+	"strings"
 
 	"verif/internal/gen"
 	"verif/internal/harness"
@@ -50,6 +51,87 @@ func c10Literal(r *rand.Rand, numeric bool) spec.Operand {
 		return spec.Operand{IsLit: true, Lit: b, LitText: fmt.Sprint(b)}
 	}
 	return spec.Operand{IsLit: true, Lit: nil, LitText: "null"}
+}
+
+// numSpellings: other JSON spellings of the numbers the documents use; every spelling of a row decodes to the same float64
+// (capital E, explicit exponent sign, trailing zeros, a fraction that is zero, integers beyond int64, negative zero).
+var numSpellings = map[string][]string{
+	"0":     {"0.0", "-0", "0E0", "0e5", "-0.0e-3"},
+	"1":     {"1.0", "1E0", "10e-1", "0.1E1", "1.000"},
+	"2":     {"2.0", "2E0", "0.2E+1", "20E-1"},
+	"1.5":   {"15E-1", "1.50", "0.15E1", "1.5E0", "1.5e+0"},
+	"-1":    {"-1.0", "-1E0", "-10E-1", "-0.1e1"},
+	"100":   {"1E2", "1e2", "100.0", "1.0E+2", "1E+2", "10E1", "0.1E3"},
+	"0.1":   {"1E-1", "0.10", "1e-1", "10E-2", "0.01E1"},
+	"1e+21": {"1E21", "1000000000000000000000", "1e21", "1000000000000000000000.0", "10E20"},
+	"1e-7":  {"1E-7", "0.0000001", "1e-07", "10E-8", "0.1E-6"},
+	"3":     {"3.0", "3E0", "30E-1"},
+}
+
+// respellNumbers rewrites every number token of a canonical JSON text (outside strings) to one of its other spellings.
+func respellNumbers(js string, r *rand.Rand) string {
+	var b strings.Builder
+	for i := 0; i < len(js); {
+		ch := js[i]
+		if ch == '"' {
+			j := i + 1
+			for j < len(js) && js[j] != '"' {
+				if js[j] == '\\' {
+					j++
+				}
+				j++
+			}
+			b.WriteString(js[i : j+1])
+			i = j + 1
+			continue
+		}
+		if ch == '-' || ch >= '0' && ch <= '9' {
+			j := i
+			for j < len(js) && strings.IndexByte("+-0123456789.eE", js[j]) >= 0 {
+				j++
+			}
+			tok := js[i:j]
+			if alts, ok := numSpellings[tok]; ok && r.Intn(4) > 0 {
+				tok = alts[r.Intn(len(alts))]
+			}
+			b.WriteString(tok)
+			i = j
+			continue
+		}
+		b.WriteByte(ch)
+		i++
+	}
+	return b.String()
+}
+
+// comparesTwoPaths: the query contains == or != between two paths (there json.Number spellings legitimately matter).
+func comparesTwoPaths(q *spec.Query) bool {
+	found := false
+	var walk func(q *spec.Query)
+	walkPath := func(p *spec.Path) {
+		if p != nil {
+			p.WalkQueries(func(q *spec.Query) {
+				if q.Op == spec.QCmp && !q.LO.IsLit && !q.RO.IsLit && (q.Cmp == "==" || q.Cmp == "!=") {
+					found = true
+				}
+			})
+		}
+	}
+	walk = func(q *spec.Query) {
+		if q == nil {
+			return
+		}
+		if q.Op == spec.QCmp && !q.LO.IsLit && !q.RO.IsLit && (q.Cmp == "==" || q.Cmp == "!=") {
+			found = true
+		}
+		walk(q.L)
+		walk(q.R)
+		walkPath(q.P)
+		walkPath(q.LO.P)
+		walkPath(q.RO.P)
+	}
+	walk(q)
+	return found
 }
 
 // typeClass of a decoded JSON value: number / string / bool / null / other.
@@ -119,7 +201,7 @@ func init() {
 				Run:    func(c *harness.Ctx, k int) { runC10(c, sysq) },
 				Finish: reportHooks,
 				Required: []string{"op:==", "op:!=", "op:<", "op:<=", "op:>", "op:>=", "op:=~", "lit:number", "lit:string", "lit:bool", "lit:null", "order:lit-left", "order:lit-right",
-					"operand:absent-root", "strict:selected-typed", "strict:mistyped-not-selected", "decode:agree-nonempty"},
+					"operand:absent-root", "strict:selected-typed", "strict:mistyped-not-selected", "decode:agree-nonempty", "decode:respelled-numbers"},
 			}
 		},
 	})
@@ -207,6 +289,18 @@ func runC10(c *harness.Ctx, sysq []*spec.Query) {
 		}
 	}
 	c.Cover("op:" + op)
+	if !comparesTwoPaths(q) && r.Intn(2) == 0 {
+		// the same numbers in other JSON spellings (json.Number keeps the text: 1E2, 100.0, 1000000000000000000000 ...)
+		rs := rand.New(rand.NewSource(r.Int63()))
+		var memo string
+		ms.respell = func(js string) string {
+			if memo == "" {
+				memo = respellNumbers(js, rs)
+			}
+			return memo
+		}
+		c.Cover("decode:respelled-numbers")
+	}
 
 	sf, sn := ms.sel(q, false), ms.sel(q, true)
 	_, docJS := ms.doc(false)
